@@ -103,7 +103,7 @@ pub fn run(case: &Value, ctx: &Ctx) -> Outcome {
                 }
             }
             let recs: Vec<gen::Rec> = sites.iter().enumerate().map(|(r, g)| gen::Rec {
-                contig: "chr1".into(), pos: (r + 1) as u64, bad: false, nogt: false,
+                contig: "chr1".into(), pos: (r + 1) as u64, bad: false, nogt: false, short_alt: false,
                 gt: cols.iter().cloned().zip(g.iter().enumerate().map(|(i, &x)| match x { 0 => "0/0", 1 => if (i + r) % 2 == 0 { "0/1" } else { "1|0" }, _ => "1/1" }.to_string())).collect(),
             }).collect();
             let vcf = gen::vcf_text(&cols, &recs, false);
